@@ -92,7 +92,13 @@ pub fn make_case(spec: &Spec) -> Option<Case> {
             && f.stanzas.iter().all(|s| s.query.capture_names().iter().all(|n| fq.capture_index_for_name(n).is_some()))
             && (nstanzas == 0 || fq.capture_index_for_name("__tsg__full_match").is_some())
     };
-    let r = catch_unwind(AssertUnwindSafe(|| f.check().map_err(|e| format!("{:?}", e))));
+    // the check error is also RENDERED, plain and pretty (C05: rendering returns text): a panic there is a panic of the case
+    let dsl_text = spec.dsl.clone();
+    let r = catch_unwind(AssertUnwindSafe(|| f.check().map_err(|e| {
+        let _ = format!("{}", e);
+        let _ = format!("{}", e.display_pretty(std::path::Path::new("rules.tsg"), &dsl_text));
+        format!("{:?}", e)
+    })));
     let (obs, outcome, impl_txt) = match r {
         Ok(Ok(())) => (format!("(CObsOk ({}))", AstDump::new().file(&f)), "Ok".to_string(), "Ok".to_string()),
         Ok(Err(dbg)) => {
